@@ -2,7 +2,7 @@
 # tools_confirm_seeded.sh <Cxx> <mK>: confirm a sub-agent's seeded change independently in its scratch worktree /tmp/mut/<Cxx>:
 # (a) demo exits 0 on the clean tree, (b) with the change the whole suite gives the baseline result, (c) demo exits 1 with the change.
 # On success copies patch, demo and meta.json to /verif/seeded/<Cxx>-<mK>/
-P=$1; M=$2; W=/tmp/mut/$P; O=$W/out
+P=$1; M=$2; W=${MUTBASE:-/tmp/mut}/$P; O=$W/out
 cd $W || exit 9
 git checkout -q -- . ; git status --short | grep -v '^?? out' && { echo "dirty tree"; exit 9; }
 /venv/bin/python out/demo_$M.py > $O/confirm_${M}_clean.txt 2>&1; rc_clean=$?
